@@ -23,6 +23,9 @@ pub fn replay(_id: &str, path: &str) -> i32 {
     println!("property {} site {} field {}", v["property"], v["site"], v["field"]);
     println!("expected: {}", v["expected"]);
     println!("recorded: {}", v["got"]);
+    if case.get("direct").is_some() {
+        return crate::direct::replay(case);
+    }
     if let (Some(src), Some(line), Some(idx)) = (case["src"].as_str(), case["line"].as_str(), case["idx"].as_u64()) {
         if case.get("regs").is_none() {
             println!("(case has no machine state; source follows)\n{}", src);
